@@ -307,6 +307,10 @@ def enumerate_paths(fn, start=None, stop=None, limit=5000, follow_back=False):
                             cv0 = const_value(strip_all_casts(last["r"]))
                             if cv0 is not None and bool(cv0) != first[2]:
                                 continue
+                            if cv0 is None and last.get("inl_return") and len(new_atoms) == 1:
+                                # the result local of an inlined helper, tested right where the call stood: the outcome says the same about
+                                # the expression the helper returned on this path
+                                new_atoms = new_atoms + conjuncts(last["r"], first[2], fn)
                     q.atoms.extend(new_atoms)
                 if blk.get("term", -1) >= 0:
                     q.decisions[blk["term"]] = i
